@@ -231,7 +231,8 @@ func (kitH264) genOf(c interface{}) int {
 
 type kitVP9 struct{}
 
-var vp9Size = map[int][2]int{1: {1920, 1080}, 2: {1280, 720}}
+// generation 2 differs in height only (a width-only comparison must not hide the change)
+var vp9Size = map[int][2]int{1: {1920, 1080}, 2: {1920, 804}}
 
 func (kitVP9) kind() string { return "v" }
 func (kitVP9) rate() int    { return 90000 }
@@ -294,15 +295,15 @@ func (kitVP9) ident(au [][]byte) (int, int, bool) {
 	return parseID(au[0][off:])
 }
 func (kitVP9) genOf(c interface{}) int {
-	w := 0
+	h := 0
 	switch cc := c.(type) {
 	case *codecs.VP9:
-		w = cc.Width
+		h = cc.Height
 	case *fmp4.CodecVP9:
-		w = cc.Width
+		h = cc.Height
 	}
 	for g, s := range vp9Size {
-		if s[0] == w {
+		if s[1] == h {
 			return g
 		}
 	}
@@ -488,4 +489,19 @@ func sameAU(a, b [][]byte) bool {
 		}
 	}
 	return true
+}
+
+// expectedParams: RFC 6381 string, RESOLUTION and FRAME-RATE of the two parameter generations of each codec kit.
+// Hand-derived from the parameter sets above (profile / level bytes, macroblock counts, timing info), not
+// computed with the library under test.
+var expectedParams = map[string]struct{ codecs, res, fps []string }{
+	// SPS: profile_idc 66 (0x42), constraint flags 0xc0, level_idc 30 (0x1e); 80x45 / 40x30 macroblocks; 25 / 30 fps
+	"h264": {[]string{"avc1.42c01e", "avc1.42c01e"}, []string{"1280x720", "640x480"}, []string{"25.000", "30.000"}},
+	// profile 0, level 1.0 (constant in the encoder: "10"), bit depth 8; frame size from the key frame header
+	"vp9": {[]string{"vp09.00.10.08", "vp09.00.10.08"}, []string{"1920x1080", "1920x804"}, []string{"", ""}},
+	// both sequence headers: profile 0, level index 8, main tier, 8 bit, 4:2:0 (string pinned from one observation,
+	// identical for both generations); frame sizes from mediacommon's test vectors
+	"av1":  {[]string{"av01.0.08M.08.0.110.01.01.01.0", "av01.0.08M.08.0.110.01.01.01.0"}, []string{"1920x804", "1920x1080"}, []string{"", ""}},
+	"aac":  {[]string{"mp4a.40.2", "mp4a.40.2"}, nil, nil},
+	"opus": {[]string{"opus", "opus"}, nil, nil},
 }
